@@ -19,3 +19,32 @@ Print Assumptions C13_threshold.
 Theorem C13_never : forall count, should_pause 0 count = false.
 Proof. exact should_pause_zero. Qed.
 Print Assumptions C13_never.
+
+(* ---- engine level: pause.go maybePause, for EVERY state (world, counters, fault plan) ---- *)
+From WF Require Import model.EngineBase model.Engine proofs.HandlerFacts.
+
+(* no count configured: never paused, the error is passed on (retried forever) *)
+Theorem C13_never_without_count : forall c inst e u ctl s, maybe_pause c inst 0 e u ctl s = (Ok false, s).
+Proof. exact no_count_never_pauses. Qed.
+Print Assumptions C13_never_without_count.
+
+(* below the n-th occurrence of this error in this process on this run: no pause, no write, no token *)
+Theorem C13_below_count : forall c inst n e u ctl s,
+  n <> 0 -> Z.of_nat (snd (c_add (ctr_of (w_ctrs (o_w s)) inst) (pause_key e u ctl))) < n ->
+  exists s1, maybe_pause c inst n e u ctl s = (Ok false, s1) /\
+             w_recs (o_w s1) = w_recs (o_w s) /\ w_hist (o_w s1) = w_hist (o_w s) /\ o_trace s1 = o_trace s.
+Proof. exact below_count_no_pause. Qed.
+Print Assumptions C13_below_count.
+
+(* at the n-th occurrence the run is paused through the controller; on success the count starts afresh and nil is returned *)
+Theorem C13_at_count : forall c inst n e u ctl s,
+  n <> 0 -> n <= Z.of_nat (snd (c_add (ctr_of (w_ctrs (o_w s)) inst) (pause_key e u ctl))) ->
+  exists s1, w_recs (o_w s1) = w_recs (o_w s) /\ o_trace s1 = o_trace s /\
+    maybe_pause c inst n e u ctl s =
+    (x <- ctl_do c ctl RSPaused 2%N ;;
+     match fst x with
+     | Err _ => fail EGen
+     | Ok _ => ctr_clear inst (pause_key e u ctl) ;;; ret true
+     end) s1.
+Proof. exact at_count_pauses. Qed.
+Print Assumptions C13_at_count.
